@@ -4,6 +4,7 @@ package interp
 
 import (
 	"fmt"
+	"os"
 	"go/types"
 	"sort"
 	"strings"
@@ -348,6 +349,8 @@ var (
 	QCMiss  int
 )
 
+var noQueryCache = os.Getenv("VERIF_NOCACHE") != ""
+
 func mix(h uint64, x uint64) uint64 {
 	h ^= x + 0x9e3779b97f4a7c15 + (h << 6) + (h >> 2)
 	h *= 0xff51afd7ed558ccd
@@ -365,6 +368,9 @@ func (p *pathRun) checkWith(c *Term) Result {
 	key := [2]uint64{p.pcKey, mix(p.pcKey2, uint64(c.ID))}
 	qcMu.Lock()
 	r, ok := qcache[key]
+	if noQueryCache {
+		ok = false
+	}
 	if ok {
 		QCHits++
 	} else {
